@@ -235,6 +235,24 @@ def run(ctx) -> None:
 
     facts = Facts(a, F, rd)
     env_defs = [n for n in cfg.live_nodes() if n.kind == "stmt" and isinstance(n.ast, ast.Assign) and isinstance(n.ast.targets[0], ast.Name) and n.ast.targets[0].id == service_p]
+    # a reassignment after the last use of the name in a decision (e.g. remembering which
+    # service was picked, for a log message) does not take part in the selection
+    def _influences(n_) -> bool:
+        after = cfg.reach([d for d, _l in n_.succ], edge_ok=lambda s_, d_, lab: lab not in ("e", "h"))
+        for i in after:
+            x = cfg.nodes[i]
+            oa = cfg.own_ast(x)
+            if oa is None:
+                continue
+            if x.kind == "test" and service_p in names_in(oa):
+                return True
+            if any(isinstance(e, ast.Subscript) and isinstance(e.slice, ast.Name) and e.slice.id == service_p for e in iter_own(oa)):
+                return True
+            if any(isinstance(e, ast.Call) and call_name(e) in ("get", "pop") and any(isinstance(y, ast.Name) and y.id == service_p for y in e.args) for e in iter_own(oa)):
+                return True
+        return False
+
+    env_defs = [n for n in env_defs if _influences(n)]
     if not env_defs:
         rep.violate("C16.R4", F, F.node, "ASPHALT_SERVICE is never consulted")
     for n in env_defs:
@@ -293,6 +311,17 @@ def run(ctx) -> None:
 
     env_guards = {t.id for n_ in env_defs for t, _lab in _ct(cfg, n_) if service_p in names_in(t.ast) and services_v not in names_in(t.ast)}
     ladder_tests = [t for t in ladder_tests if t.id not in env_guards]
+    # ... and so is a test that decides nothing about the selection (e.g. one that only logs):
+    # a ladder test controls a raise or a definition of the service section that gets merged
+    deciding = set()
+    for n_ in cfg.live_nodes():
+        if n_.kind != "stmt":
+            continue
+        is_raise = isinstance(n_.ast, ast.Raise)
+        is_def = svc_v is not None and isinstance(n_.ast, (ast.Assign, ast.AnnAssign)) and any(isinstance(x, ast.Name) and x.id == svc_v and isinstance(x.ctx, ast.Store) for x in ast.walk(n_.ast))
+        if is_raise or is_def:
+            deciding |= {t.id for t, _lab in _ct(cfg, n_)}
+    ladder_tests = [t for t in ladder_tests if t.id in deciding]
     ladder_tests.sort(key=lambda t: t.lineno)
     rows = []  # (kind, region nodes of the action, report ast)
     polarity: dict = {}
@@ -351,7 +380,16 @@ def run(ctx) -> None:
             rep.check("C16.R4", bool(sub or getc) and handled, F, node, "row 'named': that service, or an error if it does not exist", "a named service that does not exist is not reported as an error (or another service is used)")
         elif kind == "single":
             txt = " ".join(ast.unparse(cfg.own_ast(n)) for n in acts if cfg.own_ast(n) is not None and n.kind == "stmt")
-            rep.check("C16.R4", "values()" in txt and ("next(iter(" in txt or "[0]" in txt), F, node, "row 'only one': that service", "the single defined service is not the one selected")
+            ok_single = "values()" in txt and ("next(iter(" in txt or "[0]" in txt)
+            if not ok_single:
+                # `name, section = next(iter(services.items()))`
+                for n in acts:
+                    st_ = n.ast if n.kind == "stmt" else None
+                    if isinstance(st_, ast.Assign) and isinstance(st_.targets[0], ast.Tuple) and len(st_.targets[0].elts) == 2 and isinstance(st_.targets[0].elts[1], ast.Name) and st_.targets[0].elts[1].id == svc_v:
+                        vt = ast.unparse(st_.value)
+                        if "items()" in vt and services_v in names_in(st_.value) and ("next(iter(" in vt or vt.endswith("[0]")):
+                            ok_single = True
+            rep.check("C16.R4", ok_single, F, node, "row 'only one': that service", "the single defined service is not the one selected")
         elif kind == "default":
             sub = [x for n in acts if cfg.own_ast(n) is not None for x in iter_own(cfg.own_ast(n)) if isinstance(x, ast.Subscript) and is_const(x.slice, "default")]
             rep.check("C16.R4", bool(sub), F, node, "row 'default': services['default']", "the 'default' row does not select services['default']")
